@@ -15,6 +15,7 @@ DECIDED += '; R4 also: the datagram length is compared at full width (no narrowi
 DECIDED += "; R5 also: the occupancy handed to advertised_window is the receive buffer's own len()"
 DECIDED += "; R8 the fabric's KernelConfig is only read after construction (every host gets a copy)"
 DECIDED += '; no raw sequence number is widened before window arithmetic (shared C06-R16)'
+DECIDED += '; R9 a Kernel field that has a namesake in KernelConfig is initialised from it'
 ASSUMPTIONS = ["usize::min / saturating_sub semantics"]
 
 T = "turmoil_net::kernel::socket::Tcb::"
